@@ -861,6 +861,11 @@ func ruleWRElemwise(p *Prog, r *Reporter) {
 			continue
 		}
 		name := p.FuncName(fn)
+		// every element gets its own storage: no address of a variable declared outside a loop is stored into an
+		// object built on every iteration
+		for _, bad := range loopSharedAddresses(p, fn) {
+			r.Bad(bad.pos, name, "shared address "+bad.what, "the address of a variable declared outside the loop is stored into an object built on every iteration: all "+bad.what+" values on the wire end up equal to the last one")
+		}
 		// converters are pure re-encodings: no arithmetic on the converted scalars (only loop counters)
 		rls := rangeLoops(fn)
 		for _, b := range fn.Blocks {
